@@ -78,6 +78,7 @@ class BfsProp(core.Prop):
             return None, traceback.format_exc()
 
     def rebuild(self, seedrec, hist):
+        core.restore_globals()
         s = self.build_seed(seedrec)
         for op in hist:
             s = self.apply(s, op)
@@ -92,10 +93,14 @@ def _winit(modname, tier):
     import warnings
     warnings.simplefilter('ignore')
     signal.signal(signal.SIGALRM, core._alarm)
-    mod = importlib.import_module(modname)
-    prop = mod.Prop()
-    prop.tier = tier
-    prop.worker_init()
+    try:
+        mod = importlib.import_module(modname)
+        prop = mod.Prop()
+        prop.tier = tier
+        prop.worker_init()
+    except BaseException:
+        _W['init_error'] = traceback.format_exc()
+        return
     gc.collect()
     gc.freeze()      # keep explicit gc.collect() events cheap: ignore the import-time heap
     gc.disable()
@@ -106,6 +111,9 @@ def _winit(modname, tier):
 def _wexpand(chunk):
     """chunk: list of (sidx, hist, expected_hash, final)"""
     import gc
+    if 'init_error' in _W:
+        return [{'sidx': c[0], 'hist': c[1], 'succ': [], 'sviol': [],
+                 'harness': 'worker initialisation failed:\n' + _W['init_error']} for c in chunk[:1]]
     prop = _W['prop']
     out = []
     for sidx, hist, want, final in chunk:
@@ -127,6 +135,7 @@ def _wexpand(chunk):
             signal.setitimer(signal.ITIMER_REAL, 0)
             for op in prop.menu(state):
                 signal.setitimer(signal.ITIMER_REAL, prop.HORIZON)
+                core.restore_globals()
                 try:
                     r = prop.step(state, seedrec, hist, op)
                 except core.Timeout:
